@@ -29,6 +29,22 @@ def make_server(spec, result):
         result["http"].append(rec)
         k = fault["kind"]
         good = None
+        if spec.get("legacy") and isinstance(body, dict) and isinstance(body.get("query"), str):
+            # an endpoint whose introspection schema is the June 2018 one (graphql-js < 15.5, Apollo Server 2, graphene 2, ...):
+            # it knows nothing of isRepeatable, specifiedByURL, schema description, input value deprecation
+            import re as _re
+            q_ = body["query"]
+            newer = [w_ for w_, pat in (("isRepeatable", r"\bisRepeatable\b"), ("specifiedByURL", r"\bspecifiedByUR[Ll]\b"),
+                                        ("inputFields(includeDeprecated:)", r"\binputFields\s*\("), ("args(includeDeprecated:)", r"\bargs\s*\("),
+                                        ("__Schema.description", r"__schema\s*\{\s*description\b"))
+                     if _re.search(pat, q_)]
+            in_iv = _re.search(r"fragment\s+InputValue\s+on\s+__InputValue\s*\{([^}]*)\}", q_)
+            if in_iv and _re.search(r"\bisDeprecated\b|\bdeprecationReason\b", in_iv.group(1)):
+                newer.append("__InputValue.isDeprecated")
+            if newer:
+                result["http"].append({"legacy_rejected": newer})
+                return 400, {"content-type": "application/json"}, json.dumps(
+                    {"errors": [{"message": "Cannot query field / unknown argument: %s" % ", ".join(newer)}]}).encode()
         if schema is not None and isinstance(body, dict) and isinstance(body.get("query"), str):
             r = graphql_sync(schema, body["query"], variable_values=body.get("variables"),
                              operation_name=body.get("operationName"))
